@@ -1220,8 +1220,15 @@ func (c *compiler) Stmt(stmt ast.Stmt) {
 	case *ast.Pass:
 		// Do nothing
 	case *ast.Break:
-		l := c.loops.Top()
-		if l == nil {
+		// a try or with statement on the loop stack is not a loop to break out of
+		inLoop := false
+		for i := range c.loops {
+			if c.loops[i].Type == loopLoop {
+				inLoop = true
+				break
+			}
+		}
+		if !inLoop {
 			c.panicSyntaxErrorf(node, "'break' outside loop")
 		}
 		c.Op(vm.BREAK_LOOP)
